@@ -44,7 +44,7 @@ func init() {
 			obs = append(obs, c.RCONPolarity()...)
 			obs = append(obs, c.RCONReqID()...)
 			obs = append(obs, filterObs(c.NoReadAhead(), func(o core.Ob) bool { return o.Key != "scope" || true })...)
-			in := recvPred("net", "RCONConn")
+			in := c.reachFromTypes("net", []string{"RCONConn"}, "DialRCON")
 			obs = append(obs, c.TLGObs(in, in, false)...)
 			return obs
 		},
